@@ -388,15 +388,19 @@ Proof.
   - exact Ho.
   - rewrite env_go_cons, bind_eq. change (imps_get n s) with (alookup n (imps s), s). cbn [fst snd].
     destruct (alookup n (imps s)) as [i|] eqn:En.
-    + destruct (is_evaluating i); [rewrite bind_eq|]; apply IH; assumption.
+    + destruct (is_evaluating i); [rewrite bind_eq|destruct (is_value i)]; apply IH; assumption.
     + rewrite bind_eq. cbv beta. rewrite bind_eq.
       set (s1 := snd (emit (EvLoad n) (snd (call W s)))).
       assert (Ha1 : (avail s1 <= a)%nat) by exact Ha.
       assert (Ho1 : oof s1 = false) by exact Ho.
       assert (En1 : alookup n (imps s1) = None) by exact En.
       destruct (load_result W (fst (call W s)) n) as [| |d'] eqn:El.
-      * rewrite bind_eq. apply IH; assumption.
-      * rewrite bind_eq. apply IH; assumption.
+      * rewrite bind_eq, bind_eq. apply IH; [|exact Ho1].
+        match goal with |- (avail (snd (imps_set n ?v ?s0)) <= a)%nat =>
+          pose proof (avail_st_le _ _ (mono_imps_set n v s0)); assert (avail s0 <= a)%nat by exact Ha1 end. lia.
+      * rewrite bind_eq, bind_eq. apply IH; [|exact Ho1].
+        match goal with |- (avail (snd (imps_set n ?v ?s0)) <= a)%nat =>
+          pose proof (avail_st_le _ _ (mono_imps_set n v s0)); assert (avail s0 <= a)%nat by exact Ha1 end. lia.
       * rewrite bind_eq. cbv beta. rewrite bind_eq.
         pose proof (Hev n d' s1 (load_result_ok _ _ _ El) En1 Ha1 Ho1) as Ho2.
         pose proof (avail_st_le _ _ (Hm n d' s1)) as Ha2.
@@ -416,7 +420,7 @@ Lemma eval_env_oof : forall f root name d s,
 Proof.
   induction f as [|f IH]; intros root name d s Hg Hc Hf Ho; [lia|].
   rewrite eval_env_S. unfold env_body. cbv zeta. rewrite bind_eq.
-  set (root' := if String.eqb root "" then name else root).
+  set (root' := if String.eqb root "" || String.eqb root "<yaml>" then name else root).
   fold (enter name s). rewrite bind_eq.
   assert (Hgo : oof (snd (env_go W (eval_env W f root') (ed_imports d) [] [] (enter name s))) = false).
   { apply env_go_oof with (a := avail (enter name s)); [| |lia|exact Ho].
